@@ -254,3 +254,22 @@ impl Builder {
     }
   }
 }
+
+/// Parse a full `ord …` command line and run the subcommand in this process,
+/// printing its output to stdout like the binary does (tier 3: wallet
+/// commands against the simulated node).
+pub fn run_cli(args: &[String]) -> Result<(), String> {
+  let arguments = Arguments::try_parse_from(args).map_err(|err| err.to_string())?;
+  let format = arguments.options.format;
+  match arguments.run() {
+    Ok(Some(output)) => {
+      output.print(format.unwrap_or_default());
+      Ok(())
+    }
+    Ok(None) => Ok(()),
+    Err(err) => Err(match err {
+      SnafuError::Anyhow { err } => format!("{err:#}"),
+      err => err.to_string(),
+    }),
+  }
+}
